@@ -252,6 +252,7 @@ fn eval_inner(target: &str, input: &str) -> Option<String> {
         "default_ns" => c10_default_ns_witness(),
         "qname_default_ns" => c09_qname_default_ns(),
         "fixed_doc" => c20_fixed_doc(input),
+        "arena_conformance" => arenaconf::check(input),
         "missing_prefixes" => c10_missing_prefixes(input),
         "html_tree" => htmltree::check(input),
         "nav_axes" => navaxes::check(input),
@@ -320,6 +321,7 @@ fn inputs(target: &str, large: bool) -> Vec<String> {
             v
         }
         "ns_layout" => bounded::ns_layouts(),
+        "arena_conformance" => arenaconf::inputs(),
         "missing_prefixes" => {
             let decls = ["", "0", "1", "p", "01", "0p"];
             let steps = ['x', 'y', 'z', 'a', 'v', 'c', 'e'];
@@ -1864,6 +1866,113 @@ fn c10_missing_prefixes(input: &str) -> Option<String> {
         }
     }
     None
+}
+
+// (trusted base) the contracts that contracts/arena.vi and arena_mut.vi ASSUME about indextree, checked against the real
+// indextree on small forests: result, refusal condition, resulting forest, handles of removed nodes for ever removed
+#[allow(dead_code)]
+mod arenaconf {
+    use indextree::{Arena, NodeId};
+
+    #[derive(Clone, Debug, PartialEq)]
+    pub struct F { pub parent: Vec<Option<usize>>, pub kids: Vec<Vec<usize>>, pub removed: Vec<bool> }
+    impl F {
+        fn anc_or_self(&self, a: usize, mut n: usize) -> bool { loop { if n == a { return true; } match self.parent[n] { Some(p) => n = p, None => return false } } }
+        fn detach(&mut self, c: usize) { if let Some(p) = self.parent[c] { let i = self.kids[p].iter().position(|x| *x == c).unwrap(); self.kids[p].remove(i); self.parent[c] = None; } }
+        fn subtree(&self, n: usize, out: &mut Vec<usize>) { out.push(n); for k in &self.kids[n] { self.subtree(*k, out); } }
+    }
+    pub fn shapes() -> Vec<Vec<Option<usize>>> {
+        vec![vec![None, Some(0), Some(0), Some(1), Some(1), Some(2), None, Some(6)], vec![None, Some(0), Some(1), Some(2), Some(3)], vec![None, Some(0), Some(0), Some(0), Some(0), None, None], vec![None]]
+    }
+    fn build(shape: &[Option<usize>]) -> (Arena<u32>, Vec<NodeId>, F) {
+        let mut arena = Arena::new();
+        let mut ids = Vec::new();
+        let mut f = F { parent: vec![], kids: vec![], removed: vec![] };
+        for (i, p) in shape.iter().enumerate() {
+            let id = arena.new_node(i as u32);
+            ids.push(id); f.parent.push(None); f.kids.push(vec![]); f.removed.push(false);
+            if let Some(p) = p { ids[*p].append(id, &mut arena); f.parent[i] = Some(*p); f.kids[*p].push(i); }
+        }
+        (arena, ids, f)
+    }
+    fn observe(arena: &Arena<u32>, ids: &[NodeId]) -> F {
+        let idx = |n: NodeId| ids.iter().position(|x| *x == n).unwrap();
+        let mut f = F { parent: vec![], kids: vec![], removed: vec![] };
+        for id in ids {
+            let rem = id.is_removed(arena);
+            f.removed.push(rem);
+            if rem { f.parent.push(None); f.kids.push(vec![]); continue; }
+            let node = &arena[*id];
+            f.parent.push(node.parent().map(idx));
+            // children through first_child / next_sibling, cross-checked with last_child / previous_sibling
+            let mut ks = vec![]; let mut c = node.first_child(); while let Some(k) = c { ks.push(idx(k)); c = arena[k].next_sibling(); }
+            let mut rs = vec![]; let mut c = node.last_child(); while let Some(k) = c { rs.push(idx(k)); c = arena[k].previous_sibling(); }
+            rs.reverse();
+            if ks != rs { f.kids.push(vec![usize::MAX]); } else { f.kids.push(ks); }
+        }
+        f
+    }
+    pub fn inputs() -> Vec<String> {
+        let mut v = Vec::new();
+        for (si, sh) in shapes().iter().enumerate() { for op in ["append", "prepend", "insert_after", "insert_before", "detach", "remove", "remove_subtree", "reuse"] {
+            for x in 0..sh.len() { for y in 0..sh.len() { if ["detach", "remove", "remove_subtree", "reuse"].contains(&op) && y != 0 { continue; } v.push(format!("{} {} {} {}", si, op, x, y)); } } } }
+        v
+    }
+    pub fn check(input: &str) -> Option<String> {
+        let f: Vec<&str> = input.split(' ').collect();
+        let shape = shapes().get(f[0].parse::<usize>().ok()?)?.clone();
+        let (op, x, y): (&str, usize, usize) = (f[1], f[2].parse().ok()?, f[3].parse().ok()?);
+        let (mut arena, mut ids, mut m) = build(&shape);
+        let before = m.clone();
+        // the assumed contract: precondition (None = outside the contract: nothing is claimed), refusal, effect on the model
+        let expect_err: Option<bool> = match op {
+            "append" => Some(y == x || m.anc_or_self(y, x)),
+            "prepend" => if m.kids[x].first() == Some(&y) { None } else { Some(y == x || m.anc_or_self(y, x)) },
+            "insert_after" | "insert_before" => if m.parent[x].is_none() || (y != x && m.anc_or_self(y, x)) { None } else { Some(y == x) },
+            "remove" => if m.parent[x].is_none() && m.kids[x].len() > 1 { None } else { Some(false) },
+            _ => Some(false),
+        };
+        let expect_err = expect_err?;
+        if !expect_err { match op {
+            "append" => { m.detach(y); m.kids[x].push(y); m.parent[y] = Some(x); }
+            "prepend" => { m.detach(y); m.kids[x].insert(0, y); m.parent[y] = Some(x); }
+            "insert_after" | "insert_before" => { m.detach(y); let p = m.parent[x].unwrap(); let i = m.kids[p].iter().position(|k| *k == x).unwrap() + if op == "insert_after" { 1 } else { 0 }; m.kids[p].insert(i, y); m.parent[y] = Some(p); }
+            "detach" => m.detach(x),
+            "remove" => { let p = m.parent[x]; let ks = m.kids[x].clone();
+                if let Some(p) = p { let i = m.kids[p].iter().position(|k| *k == x).unwrap(); m.kids[p].remove(i); for (j, k) in ks.iter().enumerate() { m.kids[p].insert(i + j, *k); } }
+                for k in &ks { m.parent[*k] = p; }
+                m.parent[x] = None; m.kids[x].clear(); m.removed[x] = true; }
+            "remove_subtree" | "reuse" => { let mut sub = vec![]; m.subtree(x, &mut sub); m.detach(x); for n in sub { m.parent[n] = None; m.kids[n].clear(); m.removed[n] = true; } }
+            _ => return None } }
+        let r = std::panic::catch_unwind(std::panic::AssertUnwindSafe(|| match op {
+            "append" => ids[x].checked_append(ids[y], &mut arena).is_err(),
+            "prepend" => ids[x].checked_prepend(ids[y], &mut arena).is_err(),
+            "insert_after" => ids[x].checked_insert_after(ids[y], &mut arena).is_err(),
+            "insert_before" => ids[x].checked_insert_before(ids[y], &mut arena).is_err(),
+            "detach" => { ids[x].detach(&mut arena); false }
+            "remove" => { ids[x].remove(&mut arena); false }
+            _ => { ids[x].remove_subtree(&mut arena); false } }));
+        let got_err = match r { Err(_) => return Some(format!("indextree {} ({}, {}) on shape {} panics inside the assumed contract's precondition", op, x, y, f[0])), Ok(e) => e };
+        if got_err != expect_err { return Some(format!("indextree {}({}, {}) on shape {}: returned {}, the assumed contract says {}", op, x, y, f[0], if got_err { "Err" } else { "Ok" }, if expect_err { "Err" } else { "Ok" })); }
+        if op == "reuse" {
+            // new nodes after a removal may take over the slots; the old handles stay removed, the new handles are fresh
+            let n0 = ids.len();
+            for i in 0..n0 { let id = arena.new_node(100 + i as u32); if ids.contains(&id) { return Some(format!("new_node returned a handle equal to one issued before ({})", i)); } ids.push(id); m.parent.push(None); m.kids.push(vec![]); m.removed.push(false); }
+        }
+        let want = if expect_err { before } else { m };
+        let got = observe(&arena, &ids);
+        if got != want { return Some(format!("indextree {}({}, {}) on shape {}: forest {:?}, the assumed contract gives {:?}", op, x, y, f[0], got, want)); }
+        // accessors the nav contracts assume: ancestors (node first), children, is_removed
+        for (i, id) in ids.iter().enumerate() {
+            if got.removed[i] { continue; }
+            let an: Vec<usize> = id.ancestors(&arena).map(|n| ids.iter().position(|z| *z == n).unwrap()).collect();
+            let mut want_an = vec![i]; let mut c = want.parent[i]; while let Some(p) = c { want_an.push(p); c = want.parent[p]; }
+            if an != want_an { return Some(format!("indextree ancestors({}) = {:?}, expected {:?}", i, an, want_an)); }
+            let ch: Vec<usize> = id.children(&arena).map(|n| ids.iter().position(|z| *z == n).unwrap()).collect();
+            if ch != want.kids[i] { return Some(format!("indextree children({}) = {:?}, expected {:?}", i, ch, want.kids[i])); }
+        }
+        None
+    }
 }
 
 // (C09) scope queries against nearest-declaration-wins, computed independently from the declarations on the path
